@@ -259,7 +259,25 @@ pub fn peer_enter<T>(this: *const T) -> PeerGuard {
 
 impl Drop for PeerGuard {
     fn drop(&mut self) {
-        if !self.0 || std::thread::panicking() {
+        if !self.0 {
+            return;
+        }
+        if std::thread::panicking() {
+            // Either a violation is being reported (the state is no longer
+            // needed) or kanal code runs while its thread unwinds for a reason
+            // of the harness's own (a handle dropped during a panic): then the
+            // peer stack has to stay balanced, or every later access of this
+            // thread would be judged as a peer's.
+            let _b = Busy::enter();
+            crate::ctl::try_with(|e| {
+                if e.violation.is_some() || !e.active {
+                    return;
+                }
+                let id = loom::thread::current().id();
+                if let Some((_, t)) = e.threads.iter_mut().find(|(t, _)| *t == id) {
+                    t.peer.pop();
+                }
+            });
             return;
         }
         let _b = Busy::enter();
